@@ -225,6 +225,11 @@ func (e *decryptPlugin) PostReadCallBody(ctx erpc.ReadCtx) *erpc.Status {
 
 	ctx.Swap().Delete(encrypt_rawbody)
 	ctx.Input().SetBody(rawbody)
+	if rawbody == nil {
+		// nobody receives the body (a call issued without a result): unmarshalling into a nil body
+		// would ask the message for a new body, i.e. bind the reply a second time
+		return nil
+	}
 	err = ctx.Input().UnmarshalBody(bodyBytes)
 	if err != nil {
 		return erpc.NewStatus(e.statCode, "unmarshal raw body error", err.Error())
